@@ -21,7 +21,7 @@ GROUPS["int_prims"] = G("int_prims", ["base.rs", "word.rs", "word_std.rs", "word
 WORDS_QUICK = ["u64", "u8"]
 WORDS_ALL = ["u8", "u16", "u32", "u64", "u128", "usize"]
 
-WORD_PRELUDE = ["base.rs", "word.rs", "word_std.rs", "word_lz_vstd.rs"]
+WORD_PRELUDE = ["base.rs", "common.rs", "word.rs", "word_std.rs", "word_lz_vstd.rs"]
 
 def stub_int():
     return int_impl(lambda u: "stub")
@@ -61,6 +61,15 @@ BVF_DEFAULTS = ["bvf.is_empty", "bvf.repeat", "bvf.first", "bvf.last", "bvf.spli
                 "bvf.sign_extend", "bvf.significant_bits"]
 GROUPS["bvf_defaults"] = G("bvf_defaults", BVF_PRELUDE,
     BVF_BASE + stub(BVF_CORE + BVF_COUNT + ["bvf.copy_range"]) + verify(BVF_DEFAULTS))
+
+BVD_PRELUDE = WORD_PRELUDE + ["conv_std.rs", "bvd.rs"]
+BVD_BASE = [("decl", "decl.Bit"), ("decl", "decl.Bvd"), ("decl", "decl.ConvertionError"), ("decl", "decl.Endianness")] + stub_int() + BIT_CONV_STUB + [("decl", "bvd.consts")]
+BVD_CORE = ["bvd.new", "bvd.into_inner", "bvd.cfbyl", "bvd.cfbl", "bvd.capacity", "bvd.len", "bvd.with_capacity", "bvd.zeros", "bvd.get", "bvd.set", "bvd.reserve", "bvd.shrink_to_fit", "bvd.push", "bvd.pop"]
+GROUPS["bvd_core"] = G("bvd_core", BVD_PRELUDE, BVD_BASE + verify(BVD_CORE))
+GROUPS["bvd_core"]["features"] = "#![feature(allocator_api)]"
+
+GROUPS["bvd_shift"] = G("bvd_shift", BVD_PRELUDE, BVD_BASE + stub(BVD_CORE) + verify(["bvd.shl_assign", "bvd.shr_assign"]))
+GROUPS["bvd_shift"]["features"] = "#![feature(allocator_api)]"
 
 # -------------------------------------------------------------------------------------------------
 # property -> jobs
